@@ -744,6 +744,10 @@ impl<'a> W<'a> {
             // beyond 8192 and 16384 entries (recursive splitting, 2^15-term multiscalar inputs)
             n = if self.rng.chance(1, 3) { 16400 } else { 8200 };
         }
+        if self.rng.chance(1, if self.thorough { 300 } else { 900 }) {
+            // 2^16 multiscalar terms and more
+            n = 33000;
+        }
         bump(&mut self.c, &format!("probe:batch_n={}", n));
         let q = 2 + self.rng.below(2) as u8;
         let nsign = 1 + self.rng.below(5) as usize;
@@ -828,7 +832,7 @@ impl<'a> W<'a> {
         // implementation that draws its coefficients block-wise must not give them the same coefficient)
         let block_swap = n > 256 && self.rng.chance(1, 3);
         if block_swap {
-            let dists: Vec<usize> = [256usize, 512, 1024, 2048, 4096, 8192].iter().cloned().filter(|d| *d < n).collect();
+            let dists: Vec<usize> = [256usize, 512, 1024, 2048, 4096, 8192, 16384, 32768].iter().cloned().filter(|d| *d < n).collect();
             let dist = dists[self.rng.below(dists.len() as u64) as usize];
             let pos = self.rng.below((n - dist) as u64) as usize;
             bump(&mut self.c, "fault:batch_S_halves_swapped_block_distance");
@@ -1001,6 +1005,13 @@ impl<'a> W<'a> {
                 let k = refmodel::Sc::from_bytes_mod_order(&sc::clamp(&secret));
                 for _try in 0..48 {
                     let mut target = dict::structured_words(&mut self.rng);
+                    if self.rng.chance(1, 3) {
+                        // a small shared secret: the encoder then has to canonicalise a barely-reduced product
+                        let bits = [5u32, 8, 16, 32, 51, 57, 64][self.rng.below(7) as usize];
+                        let v = self.rng.next() & (u64::MAX >> (64 - bits));
+                        target = [0u8; 32];
+                        target[..8].copy_from_slice(&v.to_le_bytes());
+                    }
                     target[31] &= 0x7f;
                     let pt = match refmodel::x25519::to_edwards(&target, 0) {
                         Some(pt) => pt,
